@@ -5,6 +5,7 @@ from props.regcommon import RB, entries
 ID = "C12"
 THEOREMS = [("FlatModel.Props.C11", t) for t in ("FC.C12.kth", "FC.C12.count_default", "FC.C12.count_clear")] + [
     ("FlatModel.Props.C12", t) for t in ("FC.C12.columns_kth", "FC.C12.columns_row_exact", "FC.C12.count_merge")]
+THEOREMS += [("FlatModel.Props.UniverseOps", "FC.Universe.C12_merge_every_consec")]
 LEAN_TARGETS = ["FlatModel.Generated.Covered"]
 PROFILES = {"quick": ["checked"], "thorough": ["checked", "wrapping"], "search": ["checked"]}
 RULE = ("push sequences with empty items and ragged rows 0..6 wide in any order on every consec(..)/columns(..) entry, across "
